@@ -19,6 +19,7 @@ import (
 	"encoding/json"
 	"encoding/pem"
 	"fmt"
+	"os"
 	"reflect"
 	"sort"
 	"strings"
@@ -27,6 +28,8 @@ import (
 	"github.com/spf13/afero"
 	admv1 "k8s.io/api/admissionregistration/v1"
 	corev1 "k8s.io/api/core/v1"
+	extv1 "k8s.io/apiextensions-apiserver/pkg/apis/apiextensions/v1"
+	"k8s.io/apimachinery/pkg/apis/meta/v1/unstructured"
 	"k8s.io/apimachinery/pkg/runtime"
 	"k8s.io/apimachinery/pkg/types"
 
@@ -227,6 +230,16 @@ type c20Run struct {
 	K     int    `json:"k"`
 	O     string `json:"o"`
 	Nonce int    `json:"nonce"`
+	// Cls refines O == "fail": the class of the error the call is answered with ("" = a generic
+	// InternalError): notFound alreadyExists conflictErr forbidden invalid unauthorized tooMany
+	// serverTimeout timeout (a transport error that is Temporary()) deadline (context deadline).
+	// The model distinguishes notFound / alreadyExists / conflictErr / everything else.
+	Cls string `json:"cls"`
+	// At (optional): the fault hits the first call of the run whose log line is At ("create:SC:default"), wherever
+	// that call comes in this run; the harness then fills in K (-1: no such call). The model only sees K.
+	At string `json:"at"`
+	// stop (generator only, never serialised): the process dies before call number stop-1 (0 = no stop)
+	stop int
 }
 
 // c20Peer is interference by a concurrent peer initialiser (a second pod running
@@ -238,6 +251,26 @@ type c20Peer struct {
 	Run     int         `json:"run"`
 	Before  int         `json:"before"`
 	Secrets []c20Secret `json:"secrets"`
+	// Ops: what the other writer did to objects other than (or besides) secrets, applied after Secrets.
+	Ops []c20Op `json:"ops"`
+	// Who: "init" (or empty) = a concurrent initialiser (it obeys every rely of the theorems and never
+	// breaks a later run); "user" = any other client (a user, another controller, the garbage collector).
+	Who string `json:"who"`
+}
+
+// c20Op is one out-of-band change of the cluster by another writer. T: putPkg delPkg putCrd delCrd
+// putWhc delWhc putCr delCr lock sc drc delSecret. put* replaces the whole abstract object (created when
+// absent); lock / sc / drc set the singleton (N / SC nil = delete it).
+type c20Op struct {
+	T    string  `json:"t"`
+	Pkg  *c20Pkg `json:"pkg"`
+	Crd  *c20Crd `json:"crd"`
+	Whc  *c20Whc `json:"whc"`
+	Cr   *c20Cr  `json:"cr"`
+	SC   *c20SC  `json:"sc"`
+	N    *int    `json:"n"`
+	Kind string  `json:"kind"`
+	Name string  `json:"name"`
 }
 
 type c20Scn struct {
@@ -250,6 +283,12 @@ type c20Scn struct {
 	Peer  []c20Peer `json:"peer"`  // writes of a concurrent peer initialiser between our API calls
 	Real  bool      `json:"real"`  // use initializer.NewCertGenerator (RSA key generation) instead of the pooled-key generator
 	Fresh int       `json:"fresh"` // first id available for generated key pairs
+	// Reuse: the step objects are built ONCE for the scenario and Init is called on the same objects in every
+	// run (state a step keeps in its struct leaks into the next run; the model stays per run).
+	Reuse bool `json:"reuse"`
+	// Decoy: look-alike objects the initialiser must neither read nor touch (same secret names in another
+	// namespace). Harness only: the model does not know them.
+	Decoy bool `json:"decoy"`
 }
 
 type c20RunObs struct {
@@ -280,7 +319,7 @@ func (l c20Logger) Info(msg string, _ ...any) {
 		*l.done++
 	}
 }
-func (l c20Logger) Debug(string, ...any)            {}
+func (l c20Logger) Debug(string, ...any)             {}
 func (l c20Logger) WithValues(...any) logging.Logger { return l }
 
 // c20StepsOfCfg mirrors cmd/crossplane/core/init.go (initCommand.Run) in terms
@@ -406,7 +445,45 @@ func c20ImgObsOf(img string) c20ImgObs {
 
 // ---------------------------------------------------------------- runner
 
+func c20OutcomeOf(o string) Outcome {
+	switch o {
+	case "fail":
+		return Fail
+	case "conflict":
+		return Conflict
+	case "crashBefore":
+		return CrashBefore
+	case "crashAfter":
+		return CrashAfter
+	}
+	return OK
+}
+
+// c20PlanAt: the plan of a run whose fault is addressed by log line; *hit is set to the index of the call it hit.
+func c20PlanAt(r c20Run, hit *int) func(CallInfo) Outcome {
+	*hit = -1
+	return func(ci CallInfo) Outcome {
+		if *hit < 0 && c20LogLine(ci) == r.At {
+			*hit = ci.Index
+			return c20OutcomeOf(r.O)
+		}
+		return OK
+	}
+}
+
 func c20PlanOf(r c20Run) func(CallInfo) Outcome {
+	if r.stop > 0 {
+		inner := c20PlanOf(c20Run{K: r.K, O: r.O})
+		return func(ci CallInfo) Outcome {
+			if ci.Index == r.stop-1 {
+				return CrashBefore
+			}
+			if inner != nil {
+				return inner(ci)
+			}
+			return OK
+		}
+	}
 	if r.K < 0 {
 		return nil
 	}
@@ -430,16 +507,16 @@ func c20PlanOf(r c20Run) func(CallInfo) Outcome {
 }
 
 var c20Short = map[string]string{
-	"Secret":                            "S",
-	"Provider.pkg.crossplane.io":        "P",
-	"Configuration.pkg.crossplane.io":   "C",
-	"Function.pkg.crossplane.io":        "F",
-	"Lock.pkg.crossplane.io":            "L",
-	"DeploymentRuntimeConfig.pkg.crossplane.io":                      "DRC",
-	"StoreConfig.secrets.crossplane.io":                              "SC",
-	"CustomResourceDefinition.apiextensions.k8s.io":                  "CRD",
-	"ValidatingWebhookConfiguration.admissionregistration.k8s.io":    "V",
-	"MutatingWebhookConfiguration.admissionregistration.k8s.io":      "M",
+	"Secret":                                                      "S",
+	"Provider.pkg.crossplane.io":                                  "P",
+	"Configuration.pkg.crossplane.io":                             "C",
+	"Function.pkg.crossplane.io":                                  "F",
+	"Lock.pkg.crossplane.io":                                      "L",
+	"DeploymentRuntimeConfig.pkg.crossplane.io":                   "DRC",
+	"StoreConfig.secrets.crossplane.io":                           "SC",
+	"CustomResourceDefinition.apiextensions.k8s.io":               "CRD",
+	"ValidatingWebhookConfiguration.admissionregistration.k8s.io": "V",
+	"MutatingWebhookConfiguration.admissionregistration.k8s.io":   "M",
 }
 
 func c20LogLine(ci CallInfo) string {
@@ -456,11 +533,15 @@ func c20LogLine(ci CallInfo) string {
 
 // c20Result of one run of the real initializer.
 type c20Result struct {
-	obs    c20RunObs
-	genN   int // certificates generated during the run
-	calls  int
-	before map[string]string
-	after  map[string]string
+	obs       c20RunObs
+	genN      int // certificates generated during the run
+	calls     int
+	before    map[string]string
+	after     map[string]string
+	atHit     int             // the call index a fault addressed by log line hit (-1: none)
+	rewritten string          // the error class served instead of an impossible one
+	view      *c20PkgView     // packages as listed by the installer / as written by us
+	touched   map[string]bool // objects another writer changed during the run
 }
 
 func (w *c20World) stepsOf(s *c20Scn) []c20Step {
@@ -476,15 +557,33 @@ func (w *c20World) runOnce(s *c20Scn, idx int, r c20Run, mons *[]Mon) c20Result 
 	st := w.st
 	st.Revive()
 	st.Plan = c20PlanOf(r)
+	atHit := -1
+	if r.At != "" && r.stop == 0 {
+		st.Plan = c20PlanAt(r, &atHit)
+	}
 	st.Log = nil
 	done := 0
 	gen0 := w.crypto.calls
+	w.touched = nil
 	res := c20Result{before: c20Snap(st)}
-	w.watch(s, idx, mons)
-	steps := c20RealSteps(w, s.NS, w.stepsOf(s))
+	res.view = w.watch(s, idx, mons)
+	var steps []initializer.Step
+	if s.Reuse {
+		// long-lived step objects: built once, Init called on the same objects in every run
+		if w.steps == nil {
+			w.steps = c20RealSteps(w, s.NS, w.stepsOf(s))
+		}
+		steps = w.steps
+	} else {
+		steps = c20RealSteps(w, s.NS, w.stepsOf(s))
+	}
+	cl := &c20Client{Store: st}
+	if (r.K >= 0 || r.At != "") && r.O == "fail" {
+		cl.cls = r.Cls
+	}
 	var err error
 	if p := Guard(func() {
-		err = initializer.New(st, c20Logger{&done}, steps...).Init(context.Background())
+		err = initializer.New(cl, c20Logger{&done}, steps...).Init(context.Background())
 	}); p != "" {
 		*mons = append(*mons, Mon{Sig: "C20:panic", Why: p})
 		err = fmt.Errorf("panic")
@@ -508,6 +607,9 @@ func (w *c20World) runOnce(s *c20Scn, idx int, r c20Run, mons *[]Mon) c20Result 
 		o.Log = append(o.Log, c20LogLine(ci))
 		if ci.Changed {
 			o.Writes++
+			if os.Getenv("C20_DEBUG") != "" {
+				fmt.Fprintln(os.Stderr, "changed:", idx, ci.Index, c20LogLine(ci))
+			}
 		}
 	}
 	res.calls = len(o.Log)
@@ -516,6 +618,9 @@ func (w *c20World) runOnce(s *c20Scn, idx int, r c20Run, mons *[]Mon) c20Result 
 	res.obs = o
 	res.genN = w.crypto.calls - gen0
 	res.after = c20Snap(st)
+	res.rewritten = cl.rewritten
+	res.touched = w.touched
+	res.atHit = atHit
 	return res
 }
 
@@ -562,33 +667,196 @@ func c20Leaves(steps []c20Step) (cas map[string]bool, leaves map[string][]c20Lea
 	return
 }
 
-// watch installs the per-call monitors: existing CA / certificates / default
-// objects are never rewritten, and every newly issued certificate verifies
-// (real x509.Verify: supporting evidence at test level, crypto is not modelled).
-func (w *c20World) watch(s *c20Scn, idx int, mons *[]Mon) {
+// c20PkgView: the packages as the installer's List calls of a run saw them (the first List of each kind; the
+// "already installed" of the property is judged against THAT, whatever another writer does afterwards) and as
+// our own applied writes left them.
+type c20PkgView struct {
+	listed map[string]map[string]c20Pkg
+	ours   map[string]map[string]c20Pkg
+}
+
+// stores: (before, after) with the packages of every listed kind replaced by (as listed, as listed + our writes).
+// Without another writer that is (start of run, end of run).
+func (v *c20PkgView) stores(before, after c20Store) (c20Store, c20Store) {
+	if v == nil || len(v.listed) == 0 {
+		return before, after
+	}
+	b, a := before, after
+	b.Pkgs, a.Pkgs = []c20Pkg{}, []c20Pkg{}
+	for _, kind := range []string{"P", "C", "F"} {
+		l, ok := v.listed[kind]
+		if !ok {
+			for _, p := range before.Pkgs {
+				if p.Kind == kind {
+					b.Pkgs = append(b.Pkgs, p)
+				}
+			}
+			for _, p := range after.Pkgs {
+				if p.Kind == kind {
+					a.Pkgs = append(a.Pkgs, p)
+				}
+			}
+			continue
+		}
+		names := []string{}
+		for n := range l {
+			names = append(names, n)
+		}
+		for n := range v.ours[kind] {
+			if _, ok := l[n]; !ok {
+				names = append(names, n)
+			}
+		}
+		sort.Strings(names)
+		for _, n := range names {
+			if p, ok := l[n]; ok {
+				b.Pkgs = append(b.Pkgs, p)
+			}
+			if p, ok := v.ours[kind][n]; ok {
+				a.Pkgs = append(a.Pkgs, p)
+			} else {
+				a.Pkgs = append(a.Pkgs, l[n])
+			}
+		}
+	}
+	return b, a
+}
+
+var c20KindOfGK = map[string]string{"Provider.pkg.crossplane.io": "P", "Configuration.pkg.crossplane.io": "C", "Function.pkg.crossplane.io": "F"}
+
+func (w *c20World) pkgsOfKind(kind string) map[string]c20Pkg {
+	out := map[string]c20Pkg{}
+	for _, u := range w.st.OfKind(c20PkgGK[kind]) {
+		raw, _, _ := unstructured.NestedString(u.Object, "spec", "package")
+		lim, _, _ := unstructured.NestedInt64(u.Object, "spec", "revisionHistoryLimit")
+		out[u.GetName()] = c20Pkg{Kind: kind, Name: u.GetName(), Raw: raw, Ref: c20Parse(raw), Extra: int(lim)}
+	}
+	return out
+}
+
+// c20DefaultsSnap: the default objects (Lock, default StoreConfig, default DeploymentRuntimeConfig) as stored.
+func c20DefaultsSnap(st *Store) map[string]string {
+	out := map[string]string{}
+	for k, v := range c20Snap(st) {
+		if strings.HasPrefix(k, "StoreConfig.") || strings.HasPrefix(k, "DeploymentRuntimeConfig.") || strings.HasPrefix(k, "Lock.") {
+			out[k] = c20StripRV(v)
+		}
+	}
+	return out
+}
+
+// c20ForeignOf: the fields of a package / CRD / webhook configuration that the initializer does not declare.
+func c20ForeignOf(u *unstructured.Unstructured) string {
+	lim, _, _ := unstructured.NestedInt64(u.Object, "spec", "revisionHistoryLimit")
+	return fmt.Sprintf("%s/%d", u.GetLabels()[c20Label], lim)
+}
+
+// c20BundleRefs: the webhook TLS secret of the CRD / webhook-configuration steps ("" unless there is exactly one),
+// and per object key ("CRD/name", "V/name", "M/name") whether EVERY declaration of it asks for the bundle.
+func c20BundleRefs(steps []c20Step) (string, map[string]bool) {
+	refs := map[string]bool{}
+	decl := map[string]bool{}
+	for _, st := range steps {
+		if (st.T != "crds" && st.T != "whcs") || st.Dir == nil {
+			continue
+		}
+		if st.TLSRef != nil {
+			refs[*st.TLSRef] = true
+		}
+		for _, o := range st.Dir.Objs {
+			switch {
+			case st.T == "crds" && o.T == "crd":
+				k := "CRD/" + o.Crd.Name
+				want := o.Crd.Conv && st.TLSRef != nil
+				if v, ok := decl[k]; ok {
+					decl[k] = v && want
+				} else {
+					decl[k] = want
+				}
+			case st.T == "whcs" && o.T == "whc":
+				k := o.Whc.Kind + "/" + c20WhcName(o.Whc)
+				want := len(o.Whc.Hooks) > 0 && st.TLSRef != nil
+				if v, ok := decl[k]; ok {
+					decl[k] = v && want
+				} else {
+					decl[k] = want
+				}
+			}
+		}
+	}
+	ref := ""
+	if len(refs) == 1 {
+		for r := range refs {
+			ref = r
+		}
+	}
+	return ref, decl
+}
+
+// c20LeavesOf: c20Leaves, with the DNS names of the webhook server certificate of an `init` scenario computed
+// independently of initializer.DNSNamesForService (which is what the steps handed to the real code were built with).
+func c20LeavesOf(s *c20Scn, steps []c20Step) (map[string]bool, map[string][]c20Leaf) {
+	cas, leaves := c20Leaves(steps)
+	if s.Kind == "init" && s.Cfg != nil && s.Cfg.Webhook && s.Cfg.Server != s.Cfg.Client && s.Cfg.Server != s.Cfg.ESS {
+		c := s.Cfg
+		leaves[c.Server] = []c20Leaf{{[]string{c.SvcName, c.SvcName + "." + c.SvcNS, c.SvcName + "." + c.SvcNS + ".svc"}, true}}
+	}
+	return cas, leaves
+}
+
+// watch installs the per-call monitors: existing CA / certificates / default objects / foreign fields are never
+// rewritten (judged against the object as stored AT THE MOMENT of our write, after whatever another writer
+// did), every newly issued certificate verifies (real x509.Verify: supporting evidence at test level, crypto is
+// not modelled), and a CRD / webhook configuration we write carries tls.crt of the webhook TLS secret as it is
+// stored at that moment. It also lets the other writers of the scenario act in the before-the-call window.
+func (w *c20World) watch(s *c20Scn, idx int, mons *[]Mon) *c20PkgView {
 	st := w.st
 	steps := w.stepsOf(s)
-	cas, leaves := c20Leaves(steps)
-	// the secret as stored at the moment of our write (after whatever the peer did before that call)
+	cas, leaves := c20LeavesOf(s, steps)
+	bundleRef, bundleDecl := c20BundleRefs(steps)
+	view := &c20PkgView{listed: map[string]map[string]c20Pkg{}, ours: map[string]map[string]c20Pkg{}}
+	// the objects as stored at the moment of our write (after whatever the peer did before that call)
 	atWrite := map[int]*corev1.Secret{}
+	preDefaults := map[int]map[string]string{}
+	preForeign := map[int]string{}
 	st.Before = func(ci CallInfo) {
 		for i := range s.Peer {
 			if s.Peer[i].Run == idx && s.Peer[i].Before == ci.Index {
 				w.applyPeer(s, &s.Peer[i], steps)
 			}
 		}
-		if ci.GK == "Secret" && ci.IsWrite() {
+		if kind, ok := c20KindOfGK[ci.GK]; ok && ci.Verb == "list" {
+			if _, seen := view.listed[kind]; !seen {
+				view.listed[kind] = w.pkgsOfKind(kind)
+			}
+		}
+		if !ci.IsWrite() {
+			return
+		}
+		if os.Getenv("C20_DEBUG") != "" && idx >= 0 {
+			for _, u := range st.All() {
+				if u.GroupVersionKind().GroupKind().String() == ci.GK && u.GetName() == ci.Name {
+					fmt.Fprintln(os.Stderr, "BEFORE", idx, ci.Index, mustJSON(u.Object))
+				}
+			}
+		}
+		switch ci.GK {
+		case "Secret":
 			if u := st.Peek(c20GKSecret, ci.NS, ci.Name); u != nil {
 				sec := &corev1.Secret{}
 				_ = runtime.DefaultUnstructuredConverter.FromUnstructured(u.Object, sec)
 				atWrite[ci.Index] = sec
 			}
-		}
-	}
-	defaults := map[string]string{}
-	for k, v := range c20Snap(st) {
-		if strings.HasPrefix(k, "StoreConfig.") || strings.HasPrefix(k, "DeploymentRuntimeConfig.") || strings.HasPrefix(k, "Lock.") {
-			defaults[k] = c20StripRV(v)
+		case "StoreConfig.secrets.crossplane.io", "DeploymentRuntimeConfig.pkg.crossplane.io", "Lock.pkg.crossplane.io":
+			preDefaults[ci.Index] = c20DefaultsSnap(st)
+		default:
+			if k, ok := c20Short[ci.GK]; ok && k != "S" {
+				for _, u := range st.All() {
+					if u.GroupVersionKind().GroupKind().String() == ci.GK && u.GetName() == ci.Name {
+						preForeign[ci.Index] = c20ForeignOf(u)
+					}
+				}
+			}
 		}
 	}
 	seen := map[string]bool{}
@@ -602,15 +870,34 @@ func (w *c20World) watch(s *c20Scn, idx int, mons *[]Mon) {
 		if !ci.IsWrite() || !ci.Applied {
 			return
 		}
+		if os.Getenv("C20_DEBUG") != "" && idx >= 0 {
+			for _, u := range st.All() {
+				if u.GroupVersionKind().GroupKind().String() == ci.GK && u.GetName() == ci.Name {
+					fmt.Fprintln(os.Stderr, "AFTER ", idx, ci.Index, ci.Changed, mustJSON(u.Object))
+				}
+			}
+		}
 		switch ci.GK {
 		case "Secret":
 			u := st.Peek(c20GKSecret, ci.NS, ci.Name)
+			old := atWrite[ci.Index]
 			if u == nil {
+				if old != nil {
+					mat, complete := c20SecretMaterial(old)
+					if cas[ci.Name] && complete {
+						add("C20:ca-regenerated", "a CA secret ("+ci.Name+") that was complete at the moment of the call was deleted")
+					} else if !cas[ci.Name] && mat {
+						add("C20:cert-regenerated", "TLS secret "+ci.Name+" held certificate material at the moment of the call and was deleted")
+					}
+				}
 				return
 			}
 			sec := &corev1.Secret{}
 			_ = runtime.DefaultUnstructuredConverter.FromUnstructured(u.Object, sec)
-			old := atWrite[ci.Index]
+			if ci.NS != s.NS {
+				add("C20:foreign-object-touched", "a secret ("+ci.NS+"/"+ci.Name+") outside the configured namespace was written")
+				return
+			}
 			if old != nil && !reflect.DeepEqual(old.Data, sec.Data) {
 				mat, complete := c20SecretMaterial(old)
 				if cas[ci.Name] && complete {
@@ -627,13 +914,86 @@ func (w *c20World) watch(s *c20Scn, idx int, mons *[]Mon) {
 				w.verifyCA(sec, add)
 			}
 		case "StoreConfig.secrets.crossplane.io", "DeploymentRuntimeConfig.pkg.crossplane.io", "Lock.pkg.crossplane.io":
-			for k, v := range c20Snap(st) {
-				if b, ok := defaults[k]; ok && b != c20StripRV(v) {
-					add("C20:default-clobbered", "existing default object "+k+" was modified")
+			now := c20DefaultsSnap(st)
+			for k, b := range preDefaults[ci.Index] {
+				if v, ok := now[k]; !ok || b != v {
+					add("C20:default-clobbered", "default object "+k+", which existed at the moment of the call, was modified")
+				}
+			}
+		default:
+			k, ok := c20Short[ci.GK]
+			if !ok {
+				return
+			}
+			var cur *unstructured.Unstructured
+			for _, u := range st.All() {
+				if u.GroupVersionKind().GroupKind().String() == ci.GK && u.GetName() == ci.Name {
+					cur = u
+				}
+			}
+			if pre, had := preForeign[ci.Index]; had && (cur == nil || c20ForeignOf(cur) != pre) {
+				if kind, isPkg := c20KindOfGK[ci.GK]; isPkg {
+					add("C20:package-clobbered", "user-set spec fields of "+kind+"/"+ci.Name+" (as stored at the moment of the call) were changed")
+				} else {
+					add("C20:foreign-field-clobbered", "fields of "+k+"/"+ci.Name+" that the initializer does not declare (as stored at the moment of the call) were changed")
+				}
+			}
+			if cur == nil {
+				return
+			}
+			if kind, isPkg := c20KindOfGK[ci.GK]; isPkg {
+				if view.ours[kind] == nil {
+					view.ours[kind] = map[string]c20Pkg{}
+				}
+				view.ours[kind][ci.Name] = w.pkgsOfKind(kind)[ci.Name]
+				return
+			}
+			// the CA bundle we have just written is tls.crt of the webhook TLS secret as stored right now
+			if bundleRef == "" || !bundleDecl[k+"/"+ci.Name] || ci.Sub != "" {
+				return
+			}
+			var crt []byte
+			if su := st.Peek(c20GKSecret, s.NS, bundleRef); su != nil {
+				sec := &corev1.Secret{}
+				_ = runtime.DefaultUnstructuredConverter.FromUnstructured(su.Object, sec)
+				crt = sec.Data[corev1.TLSCertKey]
+			}
+			for _, b := range c20BundlesOf(cur) {
+				if len(crt) == 0 || string(b) != string(crt) {
+					add("C20:ca-bundle-missing", k+"/"+ci.Name+" was written with a CA bundle that is not tls.crt of the webhook TLS secret as stored at that moment")
 				}
 			}
 		}
 	}
+	return view
+}
+
+// c20BundlesOf: every caBundle a stored CRD / webhook configuration carries ([nil] for a CRD without one).
+func c20BundlesOf(u *unstructured.Unstructured) [][]byte {
+	out := [][]byte{}
+	switch u.GetKind() {
+	case "CustomResourceDefinition":
+		crd := &extv1.CustomResourceDefinition{}
+		c20From(u, crd)
+		var b []byte
+		if c := crd.Spec.Conversion; c != nil && c.Webhook != nil && c.Webhook.ClientConfig != nil {
+			b = c.Webhook.ClientConfig.CABundle
+		}
+		out = append(out, b)
+	case "ValidatingWebhookConfiguration":
+		o := &admv1.ValidatingWebhookConfiguration{}
+		c20From(u, o)
+		for _, h := range o.Webhooks {
+			out = append(out, h.ClientConfig.CABundle)
+		}
+	case "MutatingWebhookConfiguration":
+		o := &admv1.MutatingWebhookConfiguration{}
+		c20From(u, o)
+		for _, h := range o.Webhooks {
+			out = append(out, h.ClientConfig.CABundle)
+		}
+	}
+	return out
 }
 
 // c20Content: snapshot without resourceVersion / generation (content equality).
@@ -772,8 +1132,14 @@ func (w *c20World) postMonitors(s *c20Scn, before c20Store, res c20Result, mons 
 	steps := w.stepsOf(s)
 	after := res.obs.Store
 	add := func(sig, why string) { *mons = append(*mons, Mon{Sig: sig, Why: why}) }
-	// packages: at every outcome, an image whose (registry host, repository) was installed is never installed under a second name
-	bi, ai := c20PkgIndex(before), c20PkgIndex(after)
+	// packages: at every outcome, an image whose (registry host, repository) was installed is never installed under a second name.
+	// "Was installed" = as the installer's List saw it; "now" = that plus our own writes (another writer's packages are not ours).
+	pb, pa := res.view.stores(before, after)
+	otherWriter := len(res.touched) > 0
+	bi, ai := c20PkgIndex(pb), c20PkgIndex(pa)
+	if os.Getenv("C20_DEBUG") != "" {
+		fmt.Fprintln(os.Stderr, "PKGVIEW", mustJSON(res.view.listed), mustJSON(res.view.ours), "PB", mustJSON(pb.Pkgs), "PA", mustJSON(pa.Pkgs))
+	}
 	installs := 0
 	for _, st := range steps {
 		if st.T == "install" {
@@ -831,7 +1197,7 @@ func (w *c20World) postMonitors(s *c20Scn, before c20Store, res c20Result, mons 
 				}
 				if len(bi[k]) > 0 && res.obs.Res == "ok" && !contested && installs == 1 {
 					found := false
-					for _, p := range after.Pkgs {
+					for _, p := range pa.Pkgs {
 						for _, b := range bi[k] {
 							if p.Kind == kind && p.Name == b.Name && p.Raw == r.Str {
 								found = true
@@ -847,12 +1213,32 @@ func (w *c20World) postMonitors(s *c20Scn, before c20Store, res c20Result, mons 
 			}
 		}
 	}
-	// foreign fields of existing packages survive
-	for _, p := range before.Pkgs {
-		for _, q := range after.Pkgs {
-			if p.Kind == q.Kind && p.Name == q.Name && p.Extra != q.Extra {
-				add("C20:package-clobbered", "user-set spec fields of "+p.Name+" were changed")
+	// foreign fields of existing packages / CRDs / webhook configurations survive (at rest; the per-write monitors of
+	// `watch` judge the same at the moment of every write, which is what counts when another writer is around)
+	if !otherWriter {
+		for _, p := range before.Pkgs {
+			for _, q := range after.Pkgs {
+				if p.Kind == q.Kind && p.Name == q.Name && p.Extra != q.Extra {
+					add("C20:package-clobbered", "user-set spec fields of "+p.Name+" were changed")
+				}
 			}
+		}
+		for _, p := range before.Crds {
+			for _, q := range after.Crds {
+				if p.Name == q.Name && p.Extra != q.Extra {
+					add("C20:foreign-field-clobbered", "labels of CRD "+p.Name+" were changed")
+				}
+			}
+		}
+		for _, p := range before.Whcs {
+			for _, q := range after.Whcs {
+				if p.Kind == q.Kind && p.Name == q.Name && p.Extra != q.Extra {
+					add("C20:foreign-field-clobbered", "labels of webhook configuration "+p.Name+" were changed")
+				}
+			}
+		}
+		if !reflect.DeepEqual(before.Crs, after.Crs) {
+			add("C20:foreign-field-clobbered", "custom resources were changed")
 		}
 	}
 	if res.obs.Res != "ok" {
@@ -871,12 +1257,17 @@ func (w *c20World) postMonitors(s *c20Scn, before c20Store, res c20Result, mons 
 				bundle = sec.Crt
 			}
 		}
+		if res.touched["S/"+*st.TLSRef] {
+			continue // another writer changed the webhook TLS secret during this run: judged at the moment of our writes
+		}
 		if bundle == nil {
 			add("C20:ca-bundle-missing", "run completed but the webhook TLS secret has no tls.crt")
 			continue
 		}
 		for _, o := range st.Dir.Objs {
 			switch {
+			case st.T == "crds" && o.T == "crd" && res.touched["CRD/"+o.Crd.Name]:
+			case st.T == "whcs" && o.T == "whc" && res.touched[o.Whc.Kind+"/"+c20WhcName(o.Whc)]:
 			case st.T == "crds" && o.T == "crd" && o.Crd.Conv:
 				ok := false
 				for _, c := range after.Crds {
@@ -943,15 +1334,32 @@ func c20RunScn(s *c20Scn) (c20Obs, []Mon) {
 	}
 	prev := c20Result{}
 	aborted := false
+	userActed := false // a writer that is not an initialiser has acted: a later run may fail for reasons of its own
 	for i := range s.Runs {
 		s.Runs[i].Nonce = w.crypto.next
 		before := w.canon(s)
 		res := w.runOnce(s, i, s.Runs[i], &mons)
+		if s.Runs[i].At != "" {
+			s.Runs[i].K = res.atHit
+		}
+		if res.rewritten != "" {
+			s.Runs[i].Cls = res.rewritten
+		}
 		w.postMonitors(s, before, res, &mons)
 		w.chainMonitor(s, &mons)
-		// "fault free" for the idempotence / re-run monitors: no injected fault AND no peer acting during the run
+		w.restMonitor(s, before, res, &mons)
+		for _, p := range s.Peer {
+			if p.Run == i && p.Before < res.calls && p.Who == "user" {
+				userActed = true
+			}
+		}
+		// "fault free" for the idempotence / re-run monitors: no injected fault AND no other writer acting during the run
 		faultFree := (s.Runs[i].K < 0 || s.Runs[i].K >= res.calls) && !c20HasPeer(s, i, res.calls)
-		if i > 0 && prev.obs.Res == "ok" && res.obs.Res == "ok" && faultFree {
+		// the reference run was not lied to (a NotFound / AlreadyExists the server made up lets a run "complete" without its work)
+		// ... and no writer other than an initialiser working on the TLS secrets acted during it (what a concurrent
+		// initialiser writes to a protected secret stays; a package version or a CRD it wrote is ours to overwrite)
+		prevHonest := i > 0 && (!c20Lie(s.Runs[i-1]) || s.Runs[i-1].K >= prev.calls) && !c20HasOps(s, i-1, prev.calls)
+		if i > 0 && prev.obs.Res == "ok" && res.obs.Res == "ok" && faultFree && prevHonest {
 			// Two declarations that resolve to one object (two requested images with one object name, two files
 			// with one name) overwrite each other on every run: then only the content is compared, and for
 			// packages (whose name resolution depends on the sources stored at the start of the run) nothing.
@@ -983,10 +1391,10 @@ func c20RunScn(s *c20Scn) (c20Obs, []Mon) {
 				mons = append(mons, Mon{Sig: "C20:not-idempotent", Why: "a second complete run generated certificates"})
 			}
 		}
-		if i > 0 && prev.obs.Res == "ok" && faultFree && res.obs.Res != "ok" {
+		if i > 0 && prev.obs.Res == "ok" && faultFree && prevHonest && res.obs.Res != "ok" {
 			mons = append(mons, Mon{Sig: "C20:not-idempotent", Why: "a run after a completed run failed"})
 		}
-		if aborted && faultFree && baseline == "ok" && res.obs.Res != "ok" {
+		if aborted && faultFree && baseline == "ok" && !userActed && res.obs.Res != "ok" {
 			mons = append(mons, Mon{Sig: "C20:rerun-failed", Why: "a fault-free run after an aborted run failed although initialisation of the original cluster succeeds"})
 		}
 		if res.obs.Res != "ok" {
@@ -995,13 +1403,58 @@ func c20RunScn(s *c20Scn) (c20Obs, []Mon) {
 		obs.Runs = append(obs.Runs, res.obs)
 		prev = res
 	}
+	if s.Decoy && !reflect.DeepEqual(w.decoys, c20DecoySnap(w.st)) {
+		mons = append(mons, Mon{Sig: "C20:foreign-object-touched", Why: "a secret of the same name in ANOTHER namespace was modified"})
+	}
 	return obs, mons
+}
+
+// restMonitor (end of every run, at rest): every TLS secret that was protected when the run started (a complete
+// CA secret; a certificate secret holding any of tls.crt / tls.key / ca.crt) and that no other writer touched
+// during the run holds byte for byte the same data - however the run got there (update, patch, delete + create).
+func (w *c20World) restMonitor(s *c20Scn, before c20Store, res c20Result, mons *[]Mon) {
+	cas, _ := c20Leaves(w.stepsOf(s))
+	data := func(snap map[string]string, name string) (string, bool) {
+		v, ok := snap["Secret/"+s.NS+"/"+name]
+		if !ok {
+			return "", false
+		}
+		var m map[string]any
+		_ = json.Unmarshal([]byte(v), &m)
+		b, _ := json.Marshal(m["data"])
+		return string(b), true
+	}
+	for _, x := range before.Secrets {
+		if !c20Protected(cas, x) || res.touched["S/"+x.Name] || strings.Contains(x.Name, "/") {
+			continue
+		}
+		b, _ := data(res.before, x.Name)
+		a, ok := data(res.after, x.Name)
+		if ok && a == b {
+			continue
+		}
+		if cas[x.Name] {
+			*mons = append(*mons, Mon{Sig: "C20:ca-regenerated", Why: "CA secret " + x.Name + " was complete when the run started and holds other data (or is gone) when it ended"})
+		} else {
+			*mons = append(*mons, Mon{Sig: "C20:cert-regenerated", Why: "TLS secret " + x.Name + " held certificate material when the run started and holds other data (or is gone) when it ended"})
+		}
+	}
+}
+
+// c20HasOps: another writer changed something other than the content of a secret during run i.
+func c20HasOps(s *c20Scn, i, calls int) bool {
+	for _, p := range s.Peer {
+		if p.Run == i && p.Before < calls && len(p.Ops) > 0 {
+			return true
+		}
+	}
+	return false
 }
 
 // c20HasPeer: a peer write of run i falls before one of the calls the run issued.
 func c20HasPeer(s *c20Scn, i, calls int) bool {
 	for _, p := range s.Peer {
-		if p.Run == i && p.Before < calls && len(p.Secrets) > 0 {
+		if p.Run == i && p.Before < calls && len(p.Secrets)+len(p.Ops) > 0 {
 			return true
 		}
 	}
@@ -1125,6 +1578,9 @@ func c20Cls(s *c20Scn, o c20Obs) string {
 		x := "nofault"
 		if r.K >= 0 {
 			x = r.O
+			if r.O == "fail" && r.Cls != "" {
+				x += "." + r.Cls
+			}
 		}
 		if i < len(o.Runs) {
 			x += ">" + o.Runs[i].Res
@@ -1139,7 +1595,21 @@ func c20Cls(s *c20Scn, o c20Obs) string {
 			l := strings.SplitN(o.Runs[p.Run].Log[p.Before], ":", 3)
 			at = l[0] + ":" + l[1]
 		}
-		parts = append(parts, fmt.Sprintf("peer@%s(%d)", at, len(p.Secrets)))
+		who := "peer"
+		if p.Who != "" {
+			who = p.Who
+		}
+		if len(p.Ops) > 0 {
+			parts = append(parts, fmt.Sprintf("%s@%s(%d+%dops)", who, at, len(p.Secrets), len(p.Ops)))
+		} else {
+			parts = append(parts, fmt.Sprintf("%s@%s(%d)", who, at, len(p.Secrets)))
+		}
+	}
+	if s.Reuse {
+		parts = append(parts, "reuse")
+	}
+	if s.Decoy {
+		parts = append(parts, "decoy")
 	}
 	n := len(s.Store.Secrets) + len(s.Store.Pkgs) + len(s.Store.Crds) + len(s.Store.Whcs)
 	switch {
@@ -1245,9 +1715,14 @@ func init() {
 				// every fault position x every outcome, each followed by a fault-free run
 				n := c20CountCalls(s)
 				for k := 0; k < n; k++ {
-					for _, o := range []string{"fail", "conflict", "crashBefore", "crashAfter"} {
+					for _, o := range []string{"fail", "fail.notFound", "fail.alreadyExists", "fail.forbidden", "fail.timeout", "conflict", "crashBefore", "crashAfter"} {
 						s2 := c20CloneScn(s)
-						s2.Runs = []c20Run{{K: k, O: o}, {K: -1}}
+						oc := strings.SplitN(o, ".", 2)
+						f := c20Run{K: k, O: oc[0]}
+						if len(oc) == 2 {
+							f.Cls = oc[1]
+						}
+						s2.Runs = []c20Run{f, {K: -1}}
 						obs, mons := c20RunScn(s2)
 						c.Emit(s2, obs, mons, "exhaustive/"+c20Cls(s2, obs))
 					}
